@@ -132,69 +132,78 @@ def check_tree(case):
     return r
 
 
-# ------------------------------------------------------------------ MRI factories as free leaves
+st_mri = LO.st_mri
+
+
+# ------------------------------------------------------------------ larger spaces: inner-product pairs
 
 
 @st.composite
-def st_mri(draw):
-    dt = draw(st.sampled_from(["complex128", "complex128", "complex64"]))
-    kind = draw(st.sampled_from(["Sense", "Sense", "ConvSense", "ConvImage", "Ptx"]))
-    if kind == "Sense":
-        nd = draw(st.integers(2, 3))
-        s = [draw(st.integers(1, 4 if nd == 2 else 3)) for _ in range(nd)]
-        sp = LO.g_sense(draw, s, dt)
-    elif kind in ("ConvSense", "ConvImage"):
-        nd = draw(st.integers(1, 2))
-        nc = draw(st.integers(1, 3))
-        big = [draw(st.integers(2, 5)) for _ in range(nd)]
-        small = [draw(st.integers(1, b)) for b in big]
-        # valid-mode convolution: the image kernel is the larger array for ConvSense, either for ConvImage
-        noncart = draw(st.booleans())
-        out_grid = [b - s + 1 for b, s in zip(big, small)]
-        coord = weights = grd = None
-        if noncart:
-            npts = draw(st.integers(1, 5))
-            coord = LO._coord(draw, out_grid, [npts], ("in", "in", "out", "int"))
-            grd = out_grid
-            kshape = [nc, npts]
-        else:
-            kshape = [nc] + out_grid
-        if draw(st.booleans()):
-            n = A.prod(kshape)
-            weights = {"k": "dy", "shape": kshape, "dtype": LO._real(dt), "re": [draw(st.integers(0, 9)) for _ in range(n)],
-                       "im": None, "den": 4}
-        if kind == "ConvSense":
-            sp = {"op": "ConvSense", "img_ker_shape": big, "mps_ker": LO._arr_spec(draw, [nc] + small, dt),
-                  "coord": coord, "weights": weights, "grd_shape": grd}
-        else:
-            sp = {"op": "ConvImage", "mps_ker_shape": [nc] + small, "img_ker": LO._arr_spec(draw, big, dt),
-                  "coord": coord, "weights": weights, "grd_shape": grd}
-    else:
-        nd = draw(st.integers(2, 3))
-        img = [draw(st.integers(1, 4 if nd == 2 else 3)) for _ in range(nd)]
-        nc = draw(st.integers(1, 3))
-        nt = draw(st.integers(1, 5))
-        n = nt * nd
-        coord = {"k": "dy", "shape": [nt, nd], "dtype": "float64", "re": [draw(st.integers(-24, 24)) for _ in range(n)],
-                 "im": None, "den": 8}
-        b0 = None
-        if draw(st.booleans()):
-            b0 = {"k": "g", "shape": img, "dtype": "float64", "seed": draw(A.seeds)}
-        sp = {"op": "PtxSpatialExplicit", "sens": LO._arr_spec(draw, [nc] + img, "complex128"), "coord": coord,
-              "dt": draw(st.sampled_from([4e-6, 1e-5, 1e-3])), "b0": b0}
-        dt = "complex128"
-    wrap = draw(st.sampled_from(["none", "none", "H", "scale", "conj"]))
-    if wrap == "H":
-        sp = {"op": "H", "a": sp}
-    elif wrap == "scale":
-        sp = {"op": "Scale", "a": sp, "s": LO.st_scalar(draw, False), "side": "l"}
-    elif wrap == "conj":
-        sp = {"op": "Conj", "a": sp}
-    return {"tree": sp, "dtype": dt}
+def st_big(draw):
+    """Operator programs on larger spaces (up to ~600 inputs / 1500 outputs): too big for dense
+    materialisation, checked on 8 generated complex pairs <Tx,y> = <x,T^H y>."""
+    old = (LO.MAX_IN, LO.MAX_OUT)
+    LO.MAX_IN, LO.MAX_OUT = 600, 1500
+    try:
+        c = draw(LO.st_tree(max_depth=1, max_in=600, dim_hi=16))
+    finally:
+        LO.MAX_IN, LO.MAX_OUT = old
+    c["pseed"] = draw(A.seeds)
+    return c
+
+
+def pair_failures(sp, dt, pseed):
+    try:
+        op = LO.build(sp)
+    except Exception:
+        return ["unbuildable"]
+    rng = np.random.default_rng(pseed)
+    out = []
+    try:
+        with warnings.catch_warnings():
+            warnings.simplefilter("ignore")
+            H = op.H
+            if list(H.ishape) != list(op.oshape) or list(H.oshape) != list(op.ishape):
+                out.append("adjoint-shapes")
+            worst = 0.0
+            for _ in range(8):
+                x = (rng.standard_normal(op.ishape) + 1j * rng.standard_normal(op.ishape)).astype(dt)
+                y = (rng.standard_normal(op.oshape) + 1j * rng.standard_normal(op.oshape)).astype(dt)
+                Ax = np.asarray(op(x)).astype(np.complex128)
+                AHy = np.asarray(H(y)).astype(np.complex128)
+                lhs = np.vdot(y.astype(np.complex128), Ax)
+                rhs = np.vdot(AHy, x.astype(np.complex128))
+                sc = np.linalg.norm(Ax) * np.linalg.norm(y) + np.linalg.norm(AHy) * np.linalg.norm(x) + 1e-300
+                worst = max(worst, abs(lhs - rhs) / sc)
+            if not worst <= 10 * tol(dt):
+                out.append("adjoint")
+    except Exception as e:
+        out.append("raises:%s" % type(e.__cause__ or e).__name__)
+    return out
+
+
+def check_big(case):
+    r = R()
+    sp, dt = case["tree"], case["dtype"]
+    fails = [f for f in pair_failures(sp, dt, case["pseed"]) if f != "unbuildable"]
+    cl = LO.classes(sp)
+    for c in cl:
+        r.label(c)
+    if fails:
+        small = LO.localize(sp, lambda c: bool([f for f in pair_failures(c, dt, case["pseed"]) if f != "unbuildable"]))
+        sf = [f for f in pair_failures(small, dt, case["pseed"]) if f != "unbuildable"] or fails
+        for f in sf:
+            r.fail("%s:%s:large" % (f, small["op"]), "smallest failing subtree: %s" % LO.sig(small)[:1200])
+    o, i = LO.shape_of(sp)
+    r.label("in>%d" % (100 if A.prod(i) > 100 else 40 if A.prod(i) > 40 else 0))
+    r.nontrivial = A.prod(i) > 40 and any(c not in LO.COMBINATORS and c not in ("Identity", "Reshape") for c in cl)
+    r.sig = LO.sig(sp)
+    return r
 
 
 PARTS = [
     Part("tree", check_tree, {"quick": 2600, "thorough": 60000}, strategy=lambda: LO.st_tree(max_depth=2)),
     Part("leaf", check_tree, {"quick": 1600, "thorough": 40000}, strategy=lambda: LO.st_tree(max_depth=0)),
     Part("mri", check_tree, {"quick": 500, "thorough": 10000}, strategy=st_mri),
+    Part("big", check_big, {"quick": 900, "thorough": 20000}, strategy=st_big),
 ]
